@@ -154,6 +154,26 @@ impl<'a> P<'a> {
         })
     }
 }
+fn same_json(a: &Value, b: &Value) -> bool {
+    match (a, b) {
+        (Value::Number(x), Value::Number(y)) => {
+            if x.is_f64() != y.is_f64() {
+                return false;
+            }
+            if x.is_f64() {
+                let (p, q) = (x.as_f64().unwrap().to_bits() as i128, y.as_f64().unwrap().to_bits() as i128);
+                (p - q).abs() <= 1
+            } else {
+                x == y
+            }
+        }
+        (Value::Array(x), Value::Array(y)) => x.len() == y.len() && x.iter().zip(y).all(|(p, q)| same_json(p, q)),
+        (Value::Object(x), Value::Object(y)) => {
+            x.len() == y.len() && x.iter().all(|(k, p)| y.get(k).map(|q| same_json(p, q)).unwrap_or(false))
+        }
+        _ => a == b,
+    }
+}
 fn json_tok(s: &str) -> Option<Value> {
     let mut p = P { b: s.as_bytes(), i: 0 };
     let v = p.value()?;
@@ -397,8 +417,10 @@ pub fn run(t: &[String]) -> String {
         "store_text" => {
             let Some(tree) = json_tok(&t[5]) else { return "GENBUG json".into() };
             let text = hs(&t[4]);
+            // generator self-check: the tree is what the text denotes (serde_json without
+            // float_roundtrip may be one ulp off on floats, so floats are compared up to one ulp)
             match serde_json::from_str::<Value>(&text) {
-                Ok(v) if v == tree => {}
+                Ok(v) if same_json(&v, &tree) => {}
                 _ => return "GENBUG text/tree".into(),
             }
             let (name, d) = define_once("text", &t[1], true);
